@@ -177,7 +177,35 @@ def run(ctx, rep) -> None:
                 raise AnalysisError(f"C17.1: {fi.qual} uses a construct outside the validation sub-language: {u}") from u
         return ns
 
-    for label, delta in _cases():
+    # a guard that looks at a hyperparameter through a tensor of some dtype (`torch.tensor(epsilon, dtype=preconditioner_dtype)`)
+    # sees the value rounded to that dtype: the dtype is part of the case, the rounding is IEEE
+    from ..guards import round_to_dtype
+    from ..simtensor import DTYPES, DType
+
+    torch_ns = SimpleNamespace(**DTYPES)
+
+    def res_t(name: str):
+        if name == "torch":
+            return torch_ns
+        return res(name)
+
+    def tensor_hook(it_, c):
+        f = c.func
+        if isinstance(f, ast.Attribute) and isinstance(f.value, ast.Name) and f.value.id == "torch" and f.attr in ("tensor", "as_tensor", "scalar_tensor") and c.args:
+            kw = {k.arg: it_.ev(k.value) for k in c.keywords if k.arg}
+            dt = kw.get("dtype")
+            return round_to_dtype(it_.ev(c.args[0]), dt.name if isinstance(dt, DType) else "float32")
+        if isinstance(f, ast.Attribute) and f.attr in ("item", "float") and not c.args:
+            v = it_.ev(f.value)
+            if isinstance(v, (int, float)):
+                return v
+        return MISSING
+
+    cases = list(_cases())
+    for dt in ("float16", "bfloat16", "float64"):
+        for v in region_reps([0]) + [1e-12, 1e-30]:
+            cases.append((f"epsilon={v},preconditioner_dtype={dt}", {"epsilon": v, "preconditioner_dtype": DTYPES[dt]}))
+    for label, delta in cases:
         env = dict(base)
         env["preconditioner_config"] = SimpleNamespace(ignored_dims=[])
         env.update(delta)
@@ -188,7 +216,7 @@ def run(ctx, rep) -> None:
                 env["preconditioner_config"] = built_config(delta["preconditioner_config"].ignored_dims)
             except Raised:
                 continue  # rejected by the config class itself: the constructor is never reached with it
-        it = Interp(env, resolve_name=res)
+        it = Interp(env, resolve_name=res_t, call_hook=tensor_hook)
         try:
             it.run(prefix, exc_res)
             got, exc = True, None
@@ -336,11 +364,12 @@ def _payload_class(repo, m, body: list[ast.stmt], var: str | None) -> tuple[str 
     return None, None
 
 
-def _dispatch_tables(ctx, rep) -> None:
+def _dispatch_tables(ctx, rep, only: tuple[str, ...] | None = None) -> None:
     repo = ctx.repo
     from .common import hyperparameters_from_group
 
-    rep.attempt("hyperparameters_from_group", hyperparameters_from_group, ctx, rep, "C17.4")
+    if only is None:
+        rep.attempt("hyperparameters_from_group", hyperparameters_from_group, ctx, rep, "C17.4")
     tables = [
         ("_instantiate_distributor", f"{TYPES}:DistributedConfig", True, {
             None: "Distributor", "DDPShampooConfig": "DDPDistributor", "FSDPShampooConfig": "FSDPDistributor", "FullyShardShampooConfig": "FullyShardDistributor",
@@ -352,6 +381,8 @@ def _dispatch_tables(ctx, rep) -> None:
             "RMSpropGraftingConfig": "AdagradPreconditionerList", "AdamGraftingConfig": "AdagradPreconditionerList"}),
     ]  # fmt: skip
     for meth, base_q, with_none, expected in tables:
+        if only is not None and meth not in only:
+            continue
         fi = repo.method(DS, meth)
         chains = find_chains(repo, fi.module, fi.node)
         if len(chains) != 1:
